@@ -351,12 +351,14 @@ def _kernel_diff(spec, rng):
     settings = B.settings_dump("current")
     docs = []
     T = np.concatenate([np.arange(-60, 140.01, 0.5), rng.uniform(-60, 140, 99)])
-    smooth_flags = []
+    smooth_flags, scales = [], []
     for it in range(spec["n"]):
         shape = B.SHAPES[it % 7]
         tc = B.draw_tc(rng)
         coef = B.draw_coefficients(rng, shape, tc)
         smooth_flags.append(shape.endswith("smooth"))
+        e = F.effective(coef)
+        scales.append(abs(e["b0"]) + (e["bh"] + e["bc"]) * (200.0 + e["kh"] + e["kc"]))   # size of the intermediates
         docs.append(dict(doc=B.make_doc({"fw-su_sh_wi": dict(coefficients=coef, temperature_constraints=tc)}, settings), T=T.tolist()))
     tmp = tempfile.mkdtemp(prefix="c11k_", dir=os.path.join(boot.ROOT, ".cache"))
     res, viol = {}, []
@@ -383,10 +385,10 @@ def _kernel_diff(spec, rng):
             ok = True
             for i, sm in enumerate(smooth_flags):
                 if sm:
-                    tol = 4 * np.spacing(np.maximum(np.abs(a[i]), 1e-300)) + 1e-13 * np.abs(a[i])
+                    tol = 4 * np.spacing(np.maximum(np.abs(a[i]), max(scales[i], 1e-300)))   # LLVM exp vs libm exp: ulps of the intermediates
                     if not (np.abs(a[i] - b[i]) <= tol).all():
                         ok = False
-                        viol.append(dict(mech="kernel-interpreted-differs", what="interpreted kernel differs from JIT beyond 4ulp (smoothed) for vector %d: %r" % (i, float(np.abs(a[i] - b[i]).max()))))
+                        viol.append(dict(mech="kernel-interpreted-differs", what="interpreted kernel differs from JIT beyond 4 ulp of the intermediates (smoothed) for vector %d: %r" % (i, float(np.abs(a[i] - b[i]).max()))))
                         break
                 elif not I.bits_equal(a[i].ravel(), b[i].ravel()):
                     ok = False
